@@ -127,7 +127,7 @@ def jobs(tier, prop):
         # longer, hand-picked interleavings (pause at non-zero time, late resume); assets and priorities
         # fixed per pick (an event of asset 0 and one of asset 1, equal priorities), times symbolic
         picked = ['SSAPACUA', 'SSPAPAUA', 'SAPSAUSA', 'SSACAPUA', 'SAPAUAPAUA', 'SSAPAUPAUA', 'SNpSAUA', 'SPASPAUA', 'SAPASAPAUA']
-        if tier == 'thorough':   # measured 170-400 s of one core each; the last three need the 1500 s budget
+        if tier == 'thorough':   # measured 170-400 s of one core each; the heaviest do not exhaust within the 600 s job budget and are reported inconclusive
             picked += ['SSAPASUA', 'SSSAPAUA', 'SNuSAPAA', 'SNcSAPAUA', 'SSSAPASUAUA', 'SSAPSACAUSA', 'SSSAPACAUA']
         for s in picked:
             kinds = _split(s)
@@ -193,8 +193,8 @@ def jobs(tier, prop):
         ops = sub['shape']['ops']
         n_ev = sum(1 for k in ops if k in ('S', 'F') or k[0] == 'N') + sum(1 for k in ops if k in 'RA')
         return len(ops) * 3.0 ** n_ev / (8.0 if sub.get('pre') else 1.0)
-    return pack(subs, 64 if tier == 'quick' else 256, weight, f'{prop.lower()}-q', weights='free',
-                timeout=170 if tier == 'quick' else 1500)
+    return pack(subs, 64, weight, f'{prop.lower()}-q', weights='free',
+                timeout=170 if tier == 'quick' else 600)
 
 
 def bounds_text(tier, prop):
